@@ -537,9 +537,16 @@ var (
 	vZoneCache         = map[string]*time.Location{}
 )
 
+var vLocalUTC *time.Location
+
 func vZone(name string) *time.Location {
 	if name == "" || name == "UTC" {
-		return time.UTC
+		// a process started with TZ=UTC has time.Local pointing at its own location object named "UTC", not at
+		// time.UTC itself (Time values compared with == or used as map keys tell the two apart): emulate that
+		if vLocalUTC == nil {
+			vLocalUTC = time.FixedZone("UTC", 0)
+		}
+		return vLocalUTC
 	}
 	if l, ok := vZoneCache[name]; ok {
 		return l
@@ -763,7 +770,7 @@ func vSurface() []vFlagInfo {
 			if c == nil || c.Name == "help" {
 				continue
 			}
-			p := append(append([]string{}, path...), c.Name)
+			p := append(append([]string{}, path...), strings.Join(append([]string{c.Name}, c.Aliases...), "|")) // name and aliases
 			add(p, c.Flags)
 			walk(p, c.Subcommands)
 		}
@@ -791,8 +798,18 @@ func vSurfaceBools(path []string) []vBoolOpt {
 			continue
 		}
 		global := len(f.Cmd) == 0
-		if !global && strings.Join(f.Cmd, " ") != strings.Join(path, " ") {
-			continue
+		if !global {
+			match := len(f.Cmd) == len(path)
+			for i := 0; match && i < len(path); i++ {
+				ok := false
+				for _, alt := range strings.Split(f.Cmd[i], "|") {
+					ok = ok || alt == path[i]
+				}
+				match = ok
+			}
+			if !match {
+				continue
+			}
 		}
 		w := "command"
 		if global {
